@@ -13,6 +13,7 @@ const (
 	verifBeforeLock uint8 = iota
 	verifInLock
 	verifAfterUnlock
+	verifSharedAccess
 )
 
 const (
